@@ -304,6 +304,12 @@ fn fn_templates() -> Vec<FnTemplate> {
             RType::map(RType::Bool),
             RType::map(RType::Bool),
         ),
+        // results that are OWNED nested containers (a field path only ever lends)
+        t1("idlls", Sem::Own, Field, a(a(RType::Bytes)), a(a(RType::Bytes))),
+        t1("idllt", Sem::Own, Field, a(a(RType::Bool)), a(a(RType::Bool))),
+        t1("idlmn", Sem::Own, Field, a(RType::map(RType::Int)), a(RType::map(RType::Int))),
+        t1("idmln", Sem::Own, Field, RType::map(a(RType::Int)), RType::map(a(RType::Int))),
+        t1("idllln", Sem::Own, Field, a(a(a(RType::Int))), a(a(a(RType::Int)))),
         t1("lens", Sem::Len, Both, RType::Bytes, RType::Int),
         t1("lenls", Sem::Len, Field, a(RType::Bytes), RType::Int),
         t1("lenln", Sem::Len, Field, a(RType::Int), RType::Int),
